@@ -321,8 +321,11 @@ def run(ctx):
                         lname[s_[1]] = "action"
         for p_ in paths:
             for c_ in p_.conds():
+                ae_ = asserts_eq_const(c_)
                 t_ = c_.term
-                if isinstance(t_, tuple) and t_[0] == "binop" and t_[1] == "Eq" and isinstance(t_[2], tuple) and t_[2][0] == "havoc" and const_int(t_[3]) is not None \
+                if ae_ is not None and isinstance(ae_[0], tuple) and ae_[0][0] == "havoc" and body.f["locals"][ae_[0][1]]["ty"] in ("i32", "usize", "u32", "i64", "u8", "u64", "isize"):
+                    lname[ae_[0][1]] = "field"
+                elif isinstance(t_, tuple) and t_[0] == "binop" and t_[1] == "Eq" and isinstance(t_[2], tuple) and t_[2][0] == "havoc" and const_int(t_[3]) is not None \
                         and body.f["locals"][t_[2][1]]["ty"] in ("i32", "usize", "u32", "i64", "u8", "u64", "isize"):
                     lname[t_[2][1]] = "field"
         eff = {}
@@ -331,9 +334,9 @@ def run(ctx):
                 continue
             ks = []
             for c in p.conds():
-                t = c.term
-                if isinstance(t, tuple) and t[0] == "binop" and t[1] == "Eq" and isinstance(t[2], tuple) and t[2][0] == "havoc" and lname.get(t[2][1]) == "field" and c.fact == ("eq", True):
-                    ks.append(const_int(t[3]))
+                ae = asserts_eq_const(c)       # `field == k` taken, or the arm k of `match field`
+                if ae is not None and isinstance(ae[0], tuple) and ae[0][0] == "havoc" and lname.get(ae[0][1]) == "field":
+                    ks.append(ae[1])
             for k in ks:
                 hdr = p.end[1]
                 for l, v in p.env.items():
@@ -349,7 +352,36 @@ def run(ctx):
                         ix = [s for s in subterms(a) if is_index_call(s)]
                         rng = agg_variant(call_args(ix[0])[1]) if ix else None
                         inner = bool(rng) and rng[1] == "Range" and const_int(rng[2][0]) == 1 and isinstance(rng[2][1], tuple) and rng[2][1][0] == "binop" and rng[2][1][1] == "Sub" and const_int(rng[2][1][3]) == 1
-                        par = {const_int(c.term[3]) for c in p.conds() if isinstance(c.term, tuple) and c.term[0] == "binop" and c.term[1] == "Eq" and c.fact == ("eq", True) and const_int(c.term[3]) in (40, 41)}
+                        # the field's first byte is '(' and its last is ')', however the two tests are spelled (== taken, != not taken)
+                        fld = strip_refs(call_args(ix[0])[0]) if ix else None
+                        par = set()
+                        for c in p.conds():
+                            ae = asserts_eq_const(c)
+                            if ae is None or ae[1] not in (40, 41) or not (isinstance(ae[0], tuple) and ae[0][0] == "index"):
+                                continue
+                            base = ae[0][1]
+                            while isinstance(base, tuple) and base and base[0] == "deref":
+                                base = strip_refs(base[1])
+                            at = strip_refs(ae[0][2])
+                            first = const_int(at) == 0
+                            lastp = isinstance(at, tuple) and at[0] == "binop" and at[1] == "Sub" and const_int(at[3]) == 1 and length_of(at[2]) is not None
+                            if base == fld and ((ae[1] == 40 and first) or (ae[1] == 41 and lastp)):
+                                par.add(ae[1])
+                        # the same cut written with the slice API: s.strip_prefix(b"(") and then .strip_suffix(b")") of what is left
+                        def payload_of(x, callee, lit):
+                            x = strip_refs(x)
+                            if isinstance(x, tuple) and x and x[0] == "field" and x[2] == 0 and isinstance(x[1], tuple) and x[1][0] == "downcast" and x[1][2] == "Some":
+                                c_ = strip_refs(x[1][1])
+                                if is_call(c_, callee) and len(call_args(c_)) == 2 and const_bytes(call_args(c_)[1]) == lit:
+                                    return call_args(c_)[0]
+                            return None
+                        if raw and not (inner and par == {40, 41}):
+                            fb = strip_refs(a)
+                            mid = payload_of(call_args(fb)[0], "[T]>::strip_suffix", ")") if is_call(fb, "::from_bytes") else None
+                            whole = payload_of(mid, "[T]>::strip_prefix", "(") if mid is not None else None
+                            if whole is not None and isinstance(strip_refs(whole), tuple) and strip_refs(whole)[0] == "field" and is_call(strip_refs(strip_refs(whole)[1][1]), "Split<'a, T, P> as std::iter::Iterator>::next"):
+                                inner = True
+                                par = {40, 41}
                         ctx.check(raw and inner and par == {40, 41}, "D2-NAME-RAW", LFB, "name-field", "name = raw bytes strictly between '(' and ')'",
                                   "the file name is not taken as the raw bytes between a leading '(' and a trailing ')'", body.span_of(e.bb))
         # writer-derived positions
